@@ -178,10 +178,29 @@ def show(d):
         return "#(" + " ".join(show(x) for x in d.items) + ")"
     if isinstance(d, Raw):
         return d.text
+    if isinstance(d, RatLit):
+        return "%d/%d" % (d.n, d.d)
     raise TypeError("cannot show %r" % (d,))
 
 
 QUOTE_ABBREV = True
+
+
+class RatLit:
+    """a ratio literal as WRITTEN, possibly not in lowest terms (6/4, 6/3, -4/2): it denotes the reduced exact number"""
+    __slots__ = ("n", "d")
+
+    def __init__(self, n, d):
+        self.n, self.d = n, d
+
+    def __eq__(self, o):
+        return isinstance(o, RatLit) and (o.n, o.d) == (self.n, self.d)
+
+    def __hash__(self):
+        return hash(("ratlit", self.n, self.d))
+
+    def __repr__(self):
+        return "RatLit(%d, %d)" % (self.n, self.d)
 
 
 class Raw:
@@ -210,7 +229,7 @@ def skeleton(d):
         return d.name if d.name in KEYWORDS or d.name in BUILTIN_NAMES else "x"
     if isinstance(d, bool):
         return "b"
-    if isinstance(d, (int, Fraction, Real)):
+    if isinstance(d, (int, Fraction, Real, RatLit)):
         return "n"
     if isinstance(d, str):
         return "s"
